@@ -113,8 +113,10 @@ def make_case(rng):
         ops.append(s.pop(0))
         if not s:
             live.remove(s)
-    return {"nthreads": nthreads, "ncalls": ncalls, "min_run_ms": maxdelay + (close[1] if close else 0) + 15,
-            "drain_ms": 3000 + maxfinite, "est_ms": est_ms, "ops": ";".join(ops),
+    # min_run_ms 0: the end of the peer's script is a logical barrier (the Fin call), not a waiting time;
+    # drain_ms is only the watchdog for calls that never complete
+    return {"nthreads": nthreads, "ncalls": ncalls, "min_run_ms": 0,
+            "drain_ms": 8000 + maxfinite, "est_ms": est_ms, "peer_ms": maxdelay + (close[1] if close else 0), "ops": ";".join(ops),
             "peer": {"calls": pcalls, "hold": hold, "close": close, "noise": noise}}
 
 
@@ -129,8 +131,19 @@ class Script(object):
         self.p = pscript
         self.n = 0
         self.held = []
+        self.fin_serial = None
+        self.fin_answered = False
+
+    def maybe_finish(self, pr):
+        """answer the harness's final barrier call once nothing scripted is left to be written"""
+        if self.fin_serial is not None and not self.fin_answered and not pr.queue and pr.conn is not None:
+            self.fin_answered = True
+            pr._write(vpeer.method_return(pr, self.fin_serial))
 
     def on_message(self, pr, m):
+        if m.type == wire.T_CALL and m.field(wire.F_MEMBER) == b"Fin":
+            self.fin_serial = m.serial
+            return
         if m.type != wire.T_CALL or m.body_sig != b"u":
             return
         idx = m.body[0]
@@ -179,6 +192,19 @@ def peer_log(pr):
 
 # ----------------------------------------------------------------------------- harness session
 
+def timer_gate():
+    """'1' (default): dbus_timeout_handle is never called while another thread is inside libdbus; '0' only for exploration"""
+    return "0" if os.environ.get("VERIF_C17_TIMER_GATE", "1") == "0" else "1"
+
+
+def _no_core():
+    import resource
+    try:
+        resource.setrlimit(resource.RLIMIT_CORE, (0, 0))
+    except (ValueError, OSError):
+        pass
+
+
 class Session(object):
     def __init__(self, exe, rundir, tag):
         self.exe = exe
@@ -187,6 +213,7 @@ class Session(object):
         self.errpath = os.path.join(rundir, "stderr-" + tag)
         self.proc = None
         self.erroff = 0
+        self.exit_timeouts = 0
 
     def start(self):
         self.stop()
@@ -194,8 +221,15 @@ class Session(object):
         self.erroff = self.errf.tell()
         env = hrun.san_env()
         env["TSAN_OPTIONS"] = env["TSAN_OPTIONS"] + ":second_deadlock_stack=1:history_size=4"
+        # The sanitizer builds enable DBUS_ENABLE_EMBEDDED_TESTS.  Its malloc fault-injection counter is a plain global
+        # that DBusMemPool saves/restores around its block allocation and asserts on (dbus-mempool.c) - with two threads
+        # that assertion fires for reasons that have nothing to do with pending calls and do not exist in a production
+        # build.  The documented debug switch takes the pool (and that assertion) out of the picture and, as a bonus,
+        # gives every list link / hash entry its own heap block for ASan.
+        env["DBUS_DISABLE_MEM_POOLS"] = "1"
+        env["VERIF_C17_TIMER_GATE"] = timer_gate()
         self.proc = subprocess.Popen([self.exe, self.peer.address], stdin=subprocess.PIPE, stdout=subprocess.PIPE,
-                                     stderr=self.errf, env=env)
+                                     stderr=self.errf, env=env, preexec_fn=_no_core)
         os.set_blocking(self.proc.stdout.fileno(), False)
         self.buf = b""
 
@@ -208,6 +242,7 @@ class Session(object):
             try:
                 self.proc.wait(timeout=20)
             except subprocess.TimeoutExpired:
+                self.exit_timeouts += 1
                 self.proc.kill()
                 self.proc.wait()
             self.proc.stdout.close()
@@ -251,6 +286,7 @@ class Session(object):
                 status = "hang"
                 break
             pr.step(min(0.25, deadline - now), extra_rfds=[out])
+            sc.maybe_finish(pr)
             try:
                 chunk = os.read(out.fileno(), 1 << 20)
             except BlockingIOError:
@@ -299,6 +335,10 @@ TSAN_NOT_JUDGED = {"_dbus_decrement_fail_alloc_counter": "embedded-tests-fail-al
                    "_dbus_set_fail_alloc_counter": "embedded-tests-fail-alloc-counter"}
 
 
+def _excerpt(t):
+    return t if len(t) <= 5000 else t[:3600] + "\n[...]\n" + t[-1200:]
+
+
 def sanitizer_reports(text):
     """-> list of (class, site, excerpt) for every report in a stderr excerpt; class None = counted, not judged"""
     out = []
@@ -326,45 +366,107 @@ def sanitizer_reports(text):
                 out.append((None, TSAN_NOT_JUDGED[sites[0]], ""))
                 continue
             sites = sorted(set(sites))
-            out.append((kind, "/".join(sites[:3]) or "?", chunk[-3500:]))
+            out.append((kind, "/".join(sites[:3]) or "?", _excerpt(chunk)))
         rest = re.sub(r"(?s)={18}.*?={18}", "", text)
     else:
         rest = text
+    m = re.search(r"ERROR: ThreadSanitizer: (\w+) on", rest)
+    if m:
+        site = "?"
+        for fm in _tsan_frame.finditer(rest):
+            if "/dbus/dbus-" in fm.group(2):
+                site = fm.group(1)
+                break
+        out.append(("tsan:" + m.group(1), site, _excerpt(rest)))
+        return out
     cls = hrun.classify_stderr(rest)
     if cls and not cls[0].startswith("tsan"):
-        site = cls[1]
+        kind, site = cls
+        if kind == "assert:not-reached":
+            mm = re.search(r"should not have been reached: ([^\n]*)", rest)
+            if mm:
+                kind += ":" + re.sub(r"[^A-Za-z0-9]+", "-", mm.group(1)).strip("-")[:50]
         if site == "?":
+            # libdbus's own backtrace: the key is the public entry point the application called (the last
+            # libdbus frame above the harness), which has a symbol in every build flavor
             named = [f for f in _bt_frame.findall(rest) if f not in _BT_SKIP]
-            if named:
-                site = "/".join(named[:2])
-        out.append((cls[0], site, rest[-3500:]))
+            api = [f for f in named if f.startswith("dbus_")]
+            if api:
+                site = api[-1]
+            elif named:
+                site = named[-1]
+        out.append((kind, site, _excerpt(rest)))
     return out
 
 
 # ----------------------------------------------------------------------------- judging one case
 
+FAMILIES = ("tsan-data-race", "tsan-other", "tsan-crash", "asan-use-after-free", "asan-crash", "asan-other",
+            "ubsan-null-deref", "ubsan-other", "assert-double-completion", "assert-timeout-removed", "assert-other",
+            "other-crash")
+
+
+def family(kind):
+    """the small closed set of report families used as keys for multi-threaded (schedule dependent) cases"""
+    if kind.startswith("tsan:data-race"):
+        return "tsan-data-race"
+    if kind.startswith("tsan:"):
+        return "tsan-crash" if re.match(r"tsan:[A-Z]+$", kind) else "tsan-other"
+    if kind.startswith("asan:heap-use-after-free"):
+        return "asan-use-after-free"
+    if kind.startswith("asan:SEGV") or kind.startswith("asan:stack-overflow") or kind.startswith("asan:FPE"):
+        return "asan-crash"
+    if kind.startswith(("asan:", "lsan:")):
+        return "asan-other"
+    if kind.startswith("ubsan:"):
+        return "ubsan-null-deref" if "null-pointer" in kind else "ubsan-other"
+    if kind.startswith("assert:dbus-pending-call.c:pending->reply-==-NULL") or kind.startswith("assert:dbus-pending-call.c:!pending->completed"):
+        return "assert-double-completion"
+    if kind.startswith("assert:not-reached:Nonexistent-timeout-was-removed"):
+        return "assert-timeout-removed"
+    if kind.startswith(("assert:", "api-check:", "invariant:")):
+        return "assert-other"
+    return "other-crash"
+
+
+def report_key(kind, site, nthreads):
+    """Sanitizer / assertion / crash reports: in single-threaded cases (deterministic) the key carries the error kind
+    and the in-tree site; in multi-threaded cases which of several racing sites reports first depends on the schedule,
+    so the key is only the family and the exact functions stay in the witness."""
+    if nthreads is None or nthreads >= 2:
+        return "%s:mt:%s" % (PROP, family(kind))
+    return "%s:%s:%s" % (PROP, kind, site)
+
+
 def judge_case(part, flavor, case, res, status, plog, err, final):
     """-> True when the case must be re-run alone before it can be judged (watchdog / incomplete)"""
     wit = {"flavor": flavor, "case": case}
+    nth = case["nthreads"]
     rerun = False
     reports = sanitizer_reports(err)
     for kind, site, text in reports:
         if kind is None:
             part.count("tsan-report-not-judged:" + site)
             continue
-        part.count("sanitizer-report:" + kind)
-        part.violation("%s:%s:%s" % (PROP, kind, site), "sanitizer / assertion report in the %s harness" % flavor,
-                       dict(wit, stderr=text))
+        part.count("sanitizer-report:" + family(kind))
+        part.violation(report_key(kind, site, nth), "%s at %s in the %s harness (%d thread(s))" % (kind, site, flavor, nth),
+                       dict(wit, kind=kind, site=site, stderr=text))
+    judged_reports = [x for x in reports if x[0]]
     if status == "hang":
         if not final:
             return True
         part.violation("%s:hang:harness-stuck:%s" % (PROP, flavor), "the harness did not finish the script within the watchdog, twice", dict(wit, stderr=err[-3000:]))
         return False
     if status == "died":
-        if not [x for x in reports if x[0]]:
-            part.violation("%s:crash:rc%s:%s" % (PROP, res.get("rc") if res else "?", flavor), "the harness died", dict(wit, stderr=err[-3000:]))
+        if not judged_reports:
+            if not final:
+                return True      # died without saying why (e.g. killed from outside): look again before judging
+            part.violation(report_key("crash:rc%s" % (res.get("rc") if res else "?"), flavor, nth), "the harness died without a report, twice",
+                           dict(wit, stderr=err[-3000:]))
         return False
     if res is None or "events" not in res:
+        if not final:
+            return True
         part.inconclusive.append("harness could not run a case: %r" % (res,))
         return False
     if res.get("protocol_errors"):
@@ -373,7 +475,7 @@ def judge_case(part, flavor, case, res, status, plog, err, final):
         part.inconclusive.append("event log overflow")
     findings, sigs, cnt = model.judge(res, plog)
     part.counters.update(cnt)
-    mt = case["nthreads"] > 1
+    mt = nth > 1
     for s in sigs:
         part.sig(s + (mt, flavor))
     orders = tuple(e["k"] for e in res["events"] if e["k"] in ("notify", "steal", "xend", "bend", "wend"))[:12]
@@ -389,7 +491,14 @@ def judge_case(part, flavor, case, res, status, plog, err, final):
         else:
             part.violation("%s:%s" % (PROP, f.cls), f.what, dict(wit, call=f.call, result=_trim(res)))
     if res.get("drain_timeout") and not any(f.cls == "INCOMPLETE" for f in findings):
+        # every call that had to complete did, but the end-of-script barrier was never reached
         part.count("drain-timeout-without-incomplete-call")
+        if not res.get("fin") and not res.get("disconnected"):
+            if not final:
+                rerun = True
+            else:
+                part.violation("%s:hang:barrier-reply-never-dispatched" % PROP, "the peer's answer to the final barrier call was never "
+                               "dispatched within the watchdog, twice", dict(wit, result=_trim(res)))
     return rerun
 
 
@@ -400,7 +509,7 @@ def _trim(res):
 
 
 def _watchdog(case):
-    return (case["est_ms"] + case["drain_ms"] + case["min_run_ms"]) / 1000.0 + 15.0
+    return (case.get("est_ms", 500) + case["drain_ms"] + case["min_run_ms"] + case.get("peer_ms", 100)) / 1000.0 + 20.0
 
 
 def _worker(args):
@@ -416,7 +525,12 @@ def _worker(args):
             part.evaluations += 1
             part.count("scripts:" + flavor)
             part.count("threads:%d" % case["nthreads"])
+            t_case = time.monotonic()
             res, status, plog, err = ses.run_case(case, _watchdog(case))
+            if time.monotonic() - t_case > 5.0:
+                part.count("slow-case(>5s):" + status)
+                part.sample({"slow_case_s": round(time.monotonic() - t_case, 1), "status": status, "flavor": flavor,
+                             "script": case_line(case), "peer": case["peer"], "result": json.dumps(_trim(res) if res and "events" in res else res)[:3000]}, cap=12)
             if judge_case(part, flavor, case, res, status, plog, err, final=False):
                 part.count("rerun-alone")
                 ses.stop()
@@ -426,11 +540,14 @@ def _worker(args):
             if shard == 0 and i < 2 and flavor == "asan":
                 part.sample({"script": case_line(case), "peer": case["peer"], "result": json.dumps(res)[:1200]})
         ses.stop()
+        if ses.exit_timeouts:
+            part.count("harness-exit-timeout", ses.exit_timeouts)
         for kind, site, text in sanitizer_reports(ses.new_stderr()):
             if kind is None:
                 part.count("tsan-report-not-judged:" + site)
                 continue
-            part.violation("%s:%s:%s" % (PROP, kind, site), "sanitizer report at exit of the %s harness" % flavor, {"flavor": flavor, "stderr": text})
+            part.violation(report_key(kind, site, None), "%s at %s at exit of the %s harness" % (kind, site, flavor),
+                           {"flavor": flavor, "kind": kind, "site": site, "stderr": text})
     finally:
         ses.close()
         shutil.rmtree(rundir, ignore_errors=True)
@@ -482,6 +599,12 @@ def run(tier, seed, replay=None, scale=1.0):
             shards.append((seed, i, per, flavor, exes[flavor]))
     for part in report.run_sharded(_worker, shards):
         r.merge(part)
+    orders = set(x for x in r.signatures if isinstance(x, tuple) and x and x[0] == "order")
+    r.signatures -= orders
+    r.extra["distinct_completion_orders"] = len(orders)
+    # the first witness of every key is the replay file: prefer the simplest script (fewest threads, then shortest)
+    r.violations.sort(key=lambda v: ((v["witness"] or {}).get("case", {}).get("nthreads", 9),
+                                     len((v["witness"] or {}).get("case", {}).get("ops", ""))))
     full = scale >= 1
     r.require("scripts:asan", 500 if full else 1)
     r.require("scripts:tsan", 500 if full else 1)
@@ -493,9 +616,18 @@ def run(tier, seed, replay=None, scale=1.0):
     r.require("block", 100 if full else 1)
     r.require("swrb", 100 if full else 1)
     r.extra["flavors"] = ["asan", "tsan"]
+    r.extra["timer_gate"] = timer_gate()
+    r.extra["report_key_families_multithreaded"] = list(FAMILIES)
     r.extra["hooks"] = "H3 delay points not installed; schedule diversity comes from peer reply timing, thread placement and sleeps"
     r.assumptions = ["the harness is a valid API client: it installs DBusTimeout functions and calls dbus_timeout_handle for enabled, "
                      "elapsed, not-removed timeouts; it never steals before completion or twice, cancels at most once",
+                     "timer gate %s: %s" % (timer_gate(), "dbus_timeout_handle is only called while no other thread is inside a libdbus "
+                                            "call, so a timeout is never handled concurrently with its removal (the interleaving 'main-loop "
+                                            "thread fires a timeout while another thread reads its reply' is therefore NOT explored; "
+                                            "VERIF_C17_TIMER_GATE=0 explores it)" if timer_gate() == "1" else
+                                            "OFF (exploration mode): timeouts are handled concurrently with other threads' libdbus calls"),
+                     "the end of the peer's script is a logical barrier: a final call that the peer answers after its last scripted write",
+                     "sanitizer/assertion reports of multi-threaded cases are keyed by family only (C17:mt:<family>); the site is in the witness",
                      "timestamps are used only in the direction a slow machine cannot fake (a timeout error earlier than the timeout)",
                      "TSan sees only the schedules that occurred; absence of a report is not absence of a race"]
     return r.finish()
